@@ -20,8 +20,11 @@ CLAIM = dict(
          "containment (safe_join d cs = Some p implies normpath p keeps the leading-slash kind and the normalised segments of d as a "
          "prefix, with no '..' in the remainder, for absolute, relative, empty and root bases and every component tuple) and the "
          "filename laws (result over [A-Za-z0-9_.-], never starts with '.' or '_', no separator/blank/NUL, idempotent; NFKD as a "
-         "section variable with contract identity-on-ASCII). safe_join's rejection disjunction, its normalisation guard and default "
-         "directory, and secure_filename's character class and constants are regenerated from the source on every run; the model is "
+         "section variable with contract identity-on-ASCII); on top of containment, send_from_directory's refusal logic and "
+         "SharedDataMiddleware's export loop (exact match, prefix match at a '/' boundary, then safe_join) with the file system as a "
+         "section variable: the file that is opened exists and lies inside the exported directory. safe_join's rejection disjunction, its normalisation guard and default "
+         "directory, secure_filename's character class and constants, and the three tests of SharedDataMiddleware's export loop are "
+         "regenerated from the source on every run (send_from_directory and get_directory_loader are pinned); the model is "
          "compared with werkzeug and with the interpreter's posixpath on ~290k cases per quick run (every 1- and 2-component tuple "
          "over the property's atoms and assembled components, every 3-component tuple over the atoms, x 16 bases of all four kinds), "
          "and exercised end to end through send_from_directory and SharedDataMiddleware (directory, package and file exports) over a "
@@ -80,6 +83,29 @@ def bool_expr(node: ast.expr, var: str) -> str:
                     and _is_name(g.elt.left, g.generators[0].target.id) and _is_name(g.elt.comparators[0], var)):
                 return f"existsb (fun sep => contains sep {var}) os_alt_seps"
     raise px.Unsupported(f"safe_join condition not recognised: {ast.unparse(node)}")
+
+
+def bool_expr2(node: ast.expr, names: tuple[str, ...]) -> str:
+    """T2: a boolean expression over the string variables `names` (SharedDataMiddleware's prefix tests) -> Gallina"""
+    if isinstance(node, ast.UnaryOp) and isinstance(node.op, ast.Not):
+        return f"negb ({bool_expr2(node.operand, names)})"
+    if isinstance(node, ast.BoolOp):
+        op = " || " if isinstance(node.op, ast.Or) else " && "
+        return "(" + op.join(bool_expr2(v, names) for v in node.values) + ")"
+    if (isinstance(node, ast.Compare) and len(node.ops) == 1 and isinstance(node.ops[0], ast.Eq)
+            and isinstance(node.left, ast.Name) and isinstance(node.comparators[0], ast.Name)
+            and node.left.id in names and node.comparators[0].id in names):
+        return f"list_eqb {node.left.id} {node.comparators[0].id}"
+    if (isinstance(node, ast.Call) and isinstance(node.func, ast.Attribute) and isinstance(node.func.value, ast.Name)
+            and node.func.value.id in names and len(node.args) == 1 and not node.keywords):
+        a = node.args[0]
+        arg = a.id if isinstance(a, ast.Name) and a.id in names else (
+            _codes(a.value) if isinstance(a, ast.Constant) and isinstance(a.value, str) else None)
+        if arg is not None and node.func.attr == "startswith":
+            return f"starts_with {arg} {node.func.value.id}"
+        if arg is not None and node.func.attr == "endswith":
+            return f"ends_with {arg} {node.func.value.id}"
+    raise px.Unsupported(f"SharedDataMiddleware condition not recognised: {ast.unparse(node)}")
 
 
 def _strip_doc(body):
@@ -187,7 +213,49 @@ def gen() -> None:
         raise px.Unsupported("secure_filename: the Windows-only branch is no longer guarded by os.name == 'nt'")
     _expect(sb[5], "return filename", "secure_filename")
 
-    text = ("(* GENERATED by tools/c14.py from security.py, utils.py on every run - do not edit *)\n"
+    # ---- send_from_directory: refusal logic pinned
+    sfd = px.find_def(utl, "send_from_directory")
+    want = ["path_str = safe_join(os.fspath(directory), os.fspath(path))", "if path_str is None:\n    raise NotFound()",
+            "if '_root_path' in kwargs:\n    path_str = os.path.join(kwargs['_root_path'], path_str)",
+            "if not os.path.isfile(path_str):\n    raise NotFound()", "return send_file(path_str, environ, **kwargs)"]
+    got = [ast.unparse(x) for x in _strip_doc(sfd.body)]
+    if got != want:
+        raise px.Unsupported(f"send_from_directory: body changed: {got}")
+
+    # ---- SharedDataMiddleware: directory loader pinned, the export loop's three tests translated
+    sdm = px.find_class(px.load("middleware/shared_data.py"), "SharedDataMiddleware")
+    gl = [ast.unparse(x) for x in _strip_doc(px.find_def(sdm, "get_directory_loader").body)]
+    want_gl = ["def loader(path: str | None) -> tuple[str | None, _TOpener | None]:\n    if path is not None:\n"
+               "        path = safe_join(directory, path)\n        if path is None:\n            return (None, None)\n"
+               "    else:\n        path = directory\n    if os.path.isfile(path):\n"
+               "        return (os.path.basename(path), self._opener(path))\n    return (None, None)", "return loader"]
+    if gl != want_gl:
+        raise px.Unsupported(f"get_directory_loader: body changed: {gl}")
+    call = _strip_doc(px.find_def(sdm, "__call__").body)
+    if len(call) < 4 or ast.unparse(call[0]) != "path = get_path_info(environ)" or ast.unparse(call[1]) != "file_loader = None":
+        raise px.Unsupported("SharedDataMiddleware.__call__: prologue changed")
+    loop = call[2]
+    if not (isinstance(loop, ast.For) and ast.unparse(loop.target) == "(search_path, loader)" and ast.unparse(loop.iter) == "self.exports"
+            and not loop.orelse and len(loop.body) == 3 and all(isinstance(x, ast.If) and not x.orelse for x in loop.body)):
+        raise px.Unsupported("SharedDataMiddleware.__call__: export loop not recognised")
+    if ast.unparse(call[3]) != "if file_loader is None or not self.is_allowed(real_filename):\n    return self.app(environ, start_response)":
+        raise px.Unsupported("SharedDataMiddleware.__call__: fallback statement changed")
+    l_exact, l_slash, l_prefix = loop.body
+    hit = "if file_loader is not None:\n    break"
+    if [ast.unparse(x) for x in l_exact.body] != ["real_filename, file_loader = loader(None)", hit]:
+        raise px.Unsupported(f"SharedDataMiddleware.__call__: exact-match branch changed: {[ast.unparse(x) for x in l_exact.body]}")
+    if not (len(l_slash.body) == 1 and isinstance(l_slash.body[0], ast.AugAssign) and isinstance(l_slash.body[0].op, ast.Add)
+            and ast.unparse(l_slash.body[0].target) == "search_path" and isinstance(l_slash.body[0].value, ast.Constant)
+            and isinstance(l_slash.body[0].value.value, str)):
+        raise px.Unsupported("SharedDataMiddleware.__call__: `search_path += <const>` not recognised")
+    sdm_slash = l_slash.body[0].value.value
+    if [ast.unparse(x) for x in l_prefix.body] != ["real_filename, file_loader = loader(path[len(search_path):])", hit]:
+        raise px.Unsupported(f"SharedDataMiddleware.__call__: prefix branch changed: {[ast.unparse(x) for x in l_prefix.body]}")
+    sdm_exact = bool_expr2(l_exact.test, ("search_path", "path"))
+    sdm_append = bool_expr2(l_slash.test, ("search_path",))
+    sdm_prefix = bool_expr2(l_prefix.test, ("search_path", "path"))
+
+    text = ("(* GENERATED by tools/c14.py from security.py, utils.py, middleware/shared_data.py on every run - do not edit *)\n"
             "From Wz Require Import lib.Bytes C14.LibPath.\nOpen Scope N_scope.\n\n")
     text += "(* security._os_alt_seps evaluated with os.sep = '/', os.path.altsep = None (POSIX) *)\n"
     text += "Definition os_alt_seps : list (list N) := [" + "; ".join(_codes(s) for s in alt_seps) + "].\n"
@@ -204,6 +272,11 @@ def gen() -> None:
     text += "(* complement, within ASCII, of the class above; every non-ASCII code point is stripped *)\n"
     text += f"Definition filename_keep_class : list (N * N) := {px.coq_ranges(keep)}.\n"
     text += f"Definition filename_strip_chars : list N := {_codes(strip_chars)}.\n"
+    text += "\n(* SharedDataMiddleware.__call__: the tests of the export loop and the separator appended to the export key *)\n"
+    text += f"Definition sdm_exact (search_path path : list N) : bool :=\n  {sdm_exact}.\n"
+    text += f"Definition sdm_append_slash (search_path : list N) : bool :=\n  {sdm_append}.\n"
+    text += f"Definition sdm_slash : list N := {_codes(sdm_slash)}.\n"
+    text += f"Definition sdm_prefix (search_path path : list N) : bool :=\n  {sdm_prefix}.\n"
     px.write_if_changed(os.path.join(COQ, "C14", "Gen.v"), text)
 
 
@@ -580,6 +653,47 @@ def _e2e(chk, wutils, SharedDataMiddleware, EnvironBuilder, NotFound, corpus) ->
                 else:
                     judge("shared_data", seen.get("status"), body, inp)
                 chk.case(("sdm", url_path), nontrivial=True)
+
+        # the model of the export loop (directory exports): it lists the paths whose isfile test decides, in order;
+        # the file system answers here, and the first existing candidate must be the file the middleware serves
+        dir_exports = {"/static": root, "/s2/": root, "/rel": "root", "/static/sub": os.path.join(root, "sub"), "/a": root,
+                       "/ab/": root + "/"}
+        mw2 = SharedDataMiddleware(fallback, dict(dir_exports))
+        sdm_lines, sdm_impl = [], []
+        for prefix in ["/static", "/s2", "/rel", "/static/sub", "/a", "/ab", "/abc", "", "/static/..", "/s2/.."]:
+            for cs in paths[:: (1 if not quick else 2)]:
+                for url_path in (prefix + "/" + "/".join(cs), prefix + "/".join(cs)):
+                    if "\ud800" in url_path or " " in url_path:
+                        continue
+                    env = dict(environ)
+                    env["PATH_INFO"] = url_path.encode("utf-8").decode("latin-1")
+                    try:
+                        body = with_timeout(lambda: _body(mw2(env, lambda *a, **k: None)), 5)
+                    except Exception as e:  # noqa: BLE001
+                        body = ("<raised %s>" % type(e).__name__).encode()
+                    sdm_lines.append("sdm " + cps(url_path) + "".join(f" {cps(k)}={cps(v)}" for k, v in dir_exports.items()))
+                    sdm_impl.append((url_path, body))
+        exe = chk.build_modelrun("C14")
+        res = chk.run_model(exe, sdm_lines) if exe else None
+        if res is not None:
+            mism = 0
+            for (url_path, body), r in zip(sdm_impl, res):
+                cands = [] if r == "none" else [uncps(x) for x in r.split("|")]
+                want = b"FALLBACK"
+                for c in cands:
+                    if os.path.isfile(c):
+                        with open(c, "rb") as fh:
+                            want = fh.read()
+                        break
+                if want != body:
+                    mism += 1
+                    if mism <= 5:
+                        chk.broken("correspondence", "C14 model of SharedDataMiddleware's export loop",
+                                   f"PATH_INFO {url_path!r}: implementation served {body[:50]!r}, model candidates {cands!r} give {want[:50]!r}",
+                                   case={"PATH_INFO": url_path.replace(T, "<T>"), "impl": repr(body[:80]), "model": [c.replace(T, "<T>") for c in cands]})
+                chk.case(("sdm-model", url_path), nontrivial=True)
+            chk.count("model:shared_data export loop compared", len(sdm_lines))
+            chk.count("model:shared_data export loop mismatches", mism)
     finally:
         os.chdir(cwd0)
         try:
@@ -682,7 +796,9 @@ def main(chk: Check) -> None:
         "section variable nfkd (unicodedata.normalize('NFKD')) with contract: identity on ASCII strings; checked on all 128 ASCII characters and random ASCII strings every run",
         "str.split() white space = the interpreter's 29 code points (lib/Bytes.uni_ws)",
         "extraction ExtrOcamlBasic + tools/conv.ml + coq/C14/driver.ml, OCaml 4.13.1",
-        "file-system resolution (symlinks, os.path.isfile, importlib resource readers) is runtime: exercised end to end over a temporary tree, not modelled",
+        "file-system resolution (symlinks, os.path.isfile, importlib resource readers) is runtime: os.path.isfile is a section variable of the "
+        "send_from_directory / SharedDataMiddleware theorems; the model lists the candidate paths and the harness asks the real file system; "
+        "package and single-file exports and the _root_path keyword of send_from_directory are exercised end to end only",
     ]
     try:
         run(chk)
